@@ -247,6 +247,7 @@ VARIANTS = [
     V("scan entry point no longer refuses missing labels for nancumsum", ("C10", "C19"), "R-SCANMISSING", "core.py", '    if agg.name in ["cumsum", "nancumsum"] and not is_duck_dask_array(by_) and (by_ == -1).any():', '    if False:', must_mention="missing"),
     V("unknown labels refused for one reduced axis only", ("C08", "C12"), "R-PARTIALUNKNOWN", "core.py", '    if nax < by_.ndim and expected_ is None:', '    if nax == 1 and by_.ndim > 1 and expected_ is None:', must_mention="two of three"),
     V("twin: partial-axis test written as an inequality of the two counts", ("C08", "C12"), "", "core.py", '    if nax < by_.ndim and expected_ is None:', '    if expected_ is None and nax != by_.ndim:', expect="silent"),
+    V("blockwise label lists taken from the cohort map instead of the blocks", ("C18", "C16"), "R-BLOCKLABELS", "core.py", '            groups_in_block = tuple(labels_of(by_input[slc]) for slc in slices)', '            groups_in_block = tuple(labels_of(by_input[slc]) for slc in slices)\n            if chunks_cohorts and len(chunks_cohorts) == len(groups_in_block):\n                groups_in_block = tuple(np.asarray(c) for c in chunks_cohorts.values())', must_mention="mapping"),
     V("dtype promotion memoised with an untyped key", ("C14",), "R-MEMO", "xrdtypes.py", '        dtype = np.result_type(dtype, fill_value)\n    return dtype\n',
       '        dtype = _promote_for_fill_value(dtype, fill_value)\n    return dtype\n\n\n@functools.lru_cache\ndef _promote_for_fill_value(dtype: np.dtype, fill_value) -> np.dtype:\n    return np.result_type(dtype, fill_value)\n', must_mention="typed"),
     V("twin: dtype promotion memoised with typed=True", ("C14",), "", "xrdtypes.py", '        dtype = np.result_type(dtype, fill_value)\n    return dtype\n',
